@@ -340,6 +340,7 @@ type gotOutput struct {
 	units  []string
 	tables map[string]*gotTable
 	dup    string
+	matrix string // "" or what is wrong with an exported Summaries matrix
 }
 
 type libPanic struct {
@@ -499,6 +500,32 @@ func collectSeries(css []*benchseries.ComparisonSeries) (out *gotOutput) {
 			out.dup = cs.Unit
 		}
 		cs.AddSummaries(sumConf, sumN)
+		// The exported matrix is indexed by (Series, Benchmarks): Summaries[i][j] is the
+		// summary of Benchmarks[j] at Series[i], a placeholder that is not Present where
+		// the point was never measured.
+		if len(cs.Summaries) != len(cs.Series) && out.matrix == "" {
+			out.matrix = fmt.Sprintf("table %q: Summaries has %d rows for %d series points", cs.Unit, len(cs.Summaries), len(cs.Series))
+		}
+		for i, row := range cs.Summaries {
+			if out.matrix != "" || i >= len(cs.Series) {
+				break
+			}
+			if len(row) != len(cs.Benchmarks) {
+				out.matrix = fmt.Sprintf("table %q: Summaries[%d] (series %q) has %d entries for %d benchmarks %q", cs.Unit, i, cs.Series[i], len(row), len(cs.Benchmarks), cs.Benchmarks)
+				break
+			}
+			for j, cell := range row {
+				at, ok := cs.SummaryAt(cs.Benchmarks[j], cs.Series[i])
+				switch {
+				case cell == nil:
+					out.matrix = fmt.Sprintf("table %q: Summaries[%d][%d] is nil", cs.Unit, i, j)
+				case ok && at != cell:
+					out.matrix = fmt.Sprintf("table %q: Summaries[%d][%d] is not the summary of (%q, %q): %+v vs %+v", cs.Unit, i, j, cs.Benchmarks[j], cs.Series[i], *cell, at)
+				case !ok && cell.Present:
+					out.matrix = fmt.Sprintf("table %q: Summaries[%d][%d] = %+v is Present although (%q, %q) was never measured", cs.Unit, i, j, *cell, cs.Benchmarks[j], cs.Series[i])
+				}
+			}
+		}
 		gt := &gotTable{benchmarks: append([]string{}, cs.Benchmarks...), series: append([]string{}, cs.Series...),
 			hashPairs: map[string]benchseries.ComparisonHashes{}, points: map[string]gotPoint{}}
 		for k, v := range cs.HashPairs {
@@ -672,6 +699,10 @@ func Check(c Case) (v vcase.Verdict) {
 
 	// ---- every order against the reference
 	for oi, out := range outs {
+		if out.matrix != "" {
+			v.Failf("order %d: %s", oi, out.matrix)
+			return
+		}
 		if out.dup != "" {
 			v.Failf("order %d: two comparison series named %q", oi, out.dup)
 			return
